@@ -8,6 +8,8 @@ pub struct Random {
     w: u32,
     bit_buf: u32,
     bit_idx: i32,
+    #[cfg(rosu_pp_verif)]
+    pub(crate) verif_draws: u32,
 }
 
 impl Random {
@@ -19,10 +21,17 @@ impl Random {
             w: 273_326_509,
             bit_buf: 0,
             bit_idx: 32,
+            #[cfg(rosu_pp_verif)]
+            verif_draws: 0,
         }
     }
 
     pub const fn gen_unsigned(&mut self) -> u32 {
+        #[cfg(rosu_pp_verif)]
+        {
+            self.verif_draws = self.verif_draws.wrapping_add(1);
+        }
+
         let t = self.x ^ (self.x << 11);
         self.x = self.y;
         self.y = self.z;
@@ -46,6 +55,11 @@ impl Random {
 
     pub fn next_double_range(&mut self, min: f64, max: f64) -> i32 {
         (min + self.next_double() * (max - min)) as i32
+    }
+
+    #[cfg(rosu_pp_verif)]
+    pub(crate) const fn verif_bit_idx(&self) -> i32 {
+        self.bit_idx
     }
 
     pub const fn next_bool(&mut self) -> bool {
